@@ -36,7 +36,8 @@ def const_str(idx: Index, mi: ModuleInfo, e: ast.AST, cls: ClassInfo | None = No
     if isinstance(e, ast.Attribute):
         r = idx.resolve_dotted(mi, dotted(e))
         if isinstance(r, tuple) and r[0] == "assign":
-            return const_str(idx, r[1], r[3], None, depth + 1)
+            owner = r[1].classes.get(r[2].rsplit(".", 1)[0]) if "." in r[2] else None
+            return const_str(idx, r[1], r[3], owner, depth + 1)
     raise AnalysisError(f"cannot evaluate string constant `{ast.unparse(e)}` in {mi.relpath}")
 
 
@@ -59,6 +60,21 @@ def compile_call(idx: Index, mi: ModuleInfo, e: ast.AST, cls: ClassInfo | None =
     pat = const_str(idx, mi, e.args[0], cls)
     fl = e.args[1] if len(e.args) > 1 else next((k.value for k in e.keywords if k.arg == "flags"), None)
     return pat, flags_of(fl)
+
+
+def regex_of_expr(idx: Index, mi: ModuleInfo, e: ast.AST, cls: ClassInfo | None = None) -> tuple[str, int]:
+    """(pattern, flags) of an expression that denotes a compiled regex: an `re.compile(...)` call, the name of a module
+    constant, or `Class.CONSTANT` (resolved through imports)."""
+    if isinstance(e, ast.Call):
+        return compile_call(idx, mi, e, cls)
+    if isinstance(e, ast.Name) and cls is not None and e.id in cls.class_assigns():
+        return compile_call(idx, mi, cls.class_assigns()[e.id], cls)
+    if isinstance(e, (ast.Name, ast.Attribute)):
+        r = idx.resolve_dotted(mi, dotted(e) or "")
+        if isinstance(r, tuple) and r[0] == "assign":
+            owner = r[1].classes.get(r[2].rsplit(".", 1)[0]) if "." in r[2] else None
+            return compile_call(idx, r[1], r[3], owner)
+    raise AnalysisError(f"`{ast.unparse(e)[:60]}` does not resolve to a compiled regex in {mi.relpath}")
 
 
 def module_regex(idx: Index, relpath: str, name: str) -> tuple[str, int]:
